@@ -34,9 +34,10 @@ var clusterAssumptions = []string{
 func clusterCheck(prop string, quick, thorough func() []Unit) {
 	register(&Check{Prop: prop, Level: "model_checking", Rule: clusterRule, Assumptions: clusterAssumptions, Units: func(tier string) []Unit {
 		if tier == "thorough" {
-			return append(withInjection(thorough(), 10, 2), feUnits(2)...)
+			return append(append(withInjection(thorough(), 10, 2), feUnits(2)...), scUnit("stall-deposed3", 3))
 		}
 		us := append(withInjection(quick(), 6, 0), feUnits(1)...)
+		us = append(us, scUnit("stall-deposed3", 2))
 		if prop == "C08" {
 			us = append(us, feUnits(2, "fe-stepdown3")...)
 		}
@@ -141,10 +142,10 @@ func init() {
 		})
 	clusterCheck("C08",
 		func() []Unit {
-			return cat(scUnits(1, "write3", "write3-slowfsm", "write3-pipe", "crash3", "crash3-slowfsm", "transfer", "transfer-pipe", "majority-restart", "batch-mix", "batch-mix-plain", "batch-mix-slowfsm", "batch-lag", "batch-lag-plain", "batch-lag-slowfsm"), scUnits(2, "apply-fine1", "apply-fine1-batching", "apply-fine1-storeerr", "apply-fine1-batching-storeerr"))
+			return cat(scUnits(1, "write3", "write3-slowfsm", "write3-pipe", "crash3", "crash3-slowfsm", "transfer", "transfer-pipe", "majority-restart", "batch-mix", "batch-mix-plain", "batch-mix-slowfsm", "batch-mix2", "batch-mix2-slowfsm", "batch-mix2-plain-slowfsm", "batch-lag", "batch-lag-plain", "batch-lag-slowfsm"), scUnits(2, "apply-fine1", "apply-fine1-batching", "apply-fine1-storeerr", "apply-fine1-batching-storeerr"))
 		},
 		func() []Unit {
-			return cat(scUnits(2, "write3", "write3-slowfsm", "write3-pipe", "crash3", "crash3-slowfsm", "transfer", "transfer-slowfsm", "transfer-pipe", "majority-restart", "fig8", "batch-mix", "batch-mix-plain", "batch-mix-cfgstore", "batch-mix-slowfsm", "batch-lag", "batch-lag-plain", "batch-lag-slowfsm"), scUnits(3, "apply-fine1", "apply-fine1-batching", "apply-fine1-storeerr", "apply-fine1-batching-storeerr"))
+			return cat(scUnits(2, "write3", "write3-slowfsm", "write3-pipe", "crash3", "crash3-slowfsm", "transfer", "transfer-slowfsm", "transfer-pipe", "majority-restart", "fig8", "batch-mix", "batch-mix-plain", "batch-mix-cfgstore", "batch-mix-slowfsm", "batch-mix2", "batch-mix2-slowfsm", "batch-mix2-plain-slowfsm", "batch-lag", "batch-lag-plain", "batch-lag-slowfsm"), scUnits(3, "apply-fine1", "apply-fine1-batching", "apply-fine1-storeerr", "apply-fine1-batching-storeerr"))
 		})
 	clusterCheck("C10",
 		func() []Unit {
@@ -197,6 +198,7 @@ func init() {
 			}
 		}
 		us = append(us, feUnits(b, "fe-stepdown3", "fe-depose-ack3", "fe-transfer3", "fe-addvoter3")...)
+		us = append(us, scUnit("stall-deposed3", 2))
 		us = append(us, scUnit("stepdown-calls", b), scUnit("verify-deposed", 1), scUnit("rcl1-after", 1), scUnit("rcl3-after", 1), scUnit("restore3-inflight", 1), scUnit("lease2nv-live", 0))
 		if tier == "thorough" {
 			us = append(us, scUnits(1, "write3", "crash3", "transfer", "member")...)
